@@ -18,6 +18,8 @@
                               (the one-shot global timer was ignored during retry set-up or lost its CAS)
      "SilentExitInUpFilter"   a reset handled while a local reply is pending in the UpFilter phase
                               ends the task loop without reply and without cleanStream
+     "LoopCountsRetries"      every retry uses up one of the 10 iterations of the task loop: num_retries >= 9 with
+                              attempts that keep failing falls out of the loop without reply or clean-up
      "StaleFlagAfterRetry"    a timer callback that was already running when the retry was set up wins the
                               upstreamResponseReceived CAS, is ignored (setupRetry), and the flag stays set:
                               the next attempt's response and every later timer lose the CAS *)
@@ -74,7 +76,8 @@ variable retNext = "none";
 begin
 LoopTop:                                            \* ds.loop.top: for i < 10 { cleanNotify(); receive(phase) }
   if loopI >= MaxLoop then goto FellOut; end if;
-L1: loopI := loopI + 1; notify := 0;
+L1: if phase # "retry" \/ "LoopCountsRetries" \in Defects then loopI := loopI + 1; end if;   \* a retry does not use up an iteration
+  notify := 0;
   if phase = "send" then goto Send;
   elsif phase = "retry" then goto RetryBegin;
   elsif phase = "upfilter" then goto UpFilter;
@@ -355,7 +358,10 @@ LoopTop == /\ pc["w"] = "LoopTop"
                            err, clientGone, retNext, ua >>
 
 L1 == /\ pc["w"] = "L1"
-      /\ loopI' = loopI + 1
+      /\ IF phase # "retry" \/ "LoopCountsRetries" \in Defects
+            THEN /\ loopI' = loopI + 1
+            ELSE /\ TRUE
+                 /\ loopI' = loopI
       /\ notify' = 0
       /\ IF phase = "send"
             THEN /\ pc' = [pc EXCEPT !["w"] = "Send"]
